@@ -332,7 +332,7 @@ def run_case(case, obs):
             if f[flag]:
                 obs.cell("flag:" + flag)
 
-    b = R.build(case)
+    b = R.build(case, lag=True)
     hs = R.hilbert_spec(case)
     try:
         rx = R.reduce_field(b["M"][0], fx, b["w_cos"][0], b["w_user"][0], hs)
